@@ -176,6 +176,24 @@ def sequences(ctx, rep):
                 rep.violate(f"step {step}: {len(ag.constants)} stored constants / {ag.get_number_local_optimization_params()} reported parameters, "
                             f"but the expression has {n_expr} constants", "C06:param-count", case)
                 break
+            ag.fitness = v          # what the evaluation phase does with the returned value
+            act = rng.random()
+            if act < 0.25 and n_expr > 0:
+                # the user sets the constants by hand: neither the stored fitness nor the optimization request changes, but the
+                # wrapper must still return the base fitness of the constants the individual NOW holds
+                vals = [float(c) + rng.choice([-1.5, 0.75, 2.0]) for c in ag.constants]
+                ag.set_local_optimization_params(vals)
+                history = history + [{"set_constants": vals}]
+                rep.count("sequence_action", "constants set by hand, stale fitness stored")
+                continue
+            if act < 0.4:
+                # the training data behind the wrapper is replaced (a re-fit on new data)
+                y = y * rng.choice([2.0, -1.0]) + rng.choice([0.0, 3.0])
+                lo.training_data = ExplicitTrainingData(x, y)
+                history = history + [{"new_y": y.ravel().tolist()}]
+                rep.count("sequence_action", "training data replaced, stale fitness stored")
+                continue
+            rep.count("sequence_action", "stack changed")
             # mutate: replace a row so that the number of utilized constants changes
             st = [list(r) for r in ag.command_array.tolist()]
             i = rng.randrange(len(st))
